@@ -50,3 +50,20 @@ Theorem C12_explicit_files_lost_refuted :
   In (mkSrc 7 AGlobal None) (selected true (mkFlags true true true true true true) [] [] [] [7%N]).
 Proof. exact explicit_files_lost_refuted. Qed.
 Print Assumptions C12_explicit_files_lost_refuted.
+
+(* no assumption on what from_origin returned -- in particular when the project's .git/config names its own excludes file, which from_origin
+   lists at global scope: a global ignore file that belongs to no VCS (the application's own) is kept unless a flag names it *)
+Theorem C12_global_nonvcs_kept : forall fixed fl vcs proj glob expl f,
+  In f glob -> s_in f = AGlobal -> s_to f = None ->
+  no_global (normalise fl) = false -> no_discover (normalise fl) = false ->
+  In f (selected fixed fl vcs proj glob expl).
+Proof. exact global_nonvcs_kept. Qed.
+Print Assumptions C12_global_nonvcs_kept.
+
+Theorem C12_project_excludes_replaces_user_git :
+  let proj := [mkSrc 8 AGlobal (Some PT_Git); mkSrc 1 AOrigin (Some PT_Git)] in
+  let glob := [mkSrc 6 AGlobal (Some PT_Git); mkSrc 7 AGlobal None] in
+  map s_id (selected true flags0 [PT_Git] proj glob []) = [8; 1; 7]%N /\
+  map s_id (selected true (mkFlags false true false false false false) [PT_Git] proj glob []) = [6; 7]%N.
+Proof. exact project_excludes_replaces_user_git. Qed.
+Print Assumptions C12_project_excludes_replaces_user_git.
